@@ -1977,6 +1977,12 @@ def gen_C16(rng, tier):
         L.append("dv axle:%d -- ra oa u:0 ra" % n)
         if n >= 1:
             L.append("dv axle:%d -- ss:%d:%s sc:%d:%s u:0 oa ra" % (n, n - 1, datum_state(rng, 3), 0, datum_cmd(rng, 4)))
+    # a borrow obtained in safe code must stay exclusive / shared as the RefCell says: a conflicting borrow panics instead of handing out
+    # a second, unchecked access (through which the first borrow's target could be replaced and freed)
+    for held_kind, inner in (("hr", "wr:0:5"), ("hr", "wr:1:5"), ("hr", "inc:1"), ("hm", "rd:0"), ("hm", "rd:1"), ("hm", "wr:1:3"), ("hr", "hm:0"), ("hm", "hr:1"),
+                             ("hr", "rd:1 hr:1 rd:0 hx")):
+        L.append("rf rc cl:0 %s:0 %s hx rd:0 live" % (held_kind, inner))
+        L.append("rf rc dy:0 %s:1 %s hx rd:0 live" % (held_kind, inner))
     # "no Reference outlives the object it points to", for References made by safe code (the counted variants): every way of making
     # 1..3 further handles by clone / to_dyn!, then the handles dropped in every order with the target's liveness asked after each drop
     # and a read through a surviving handle
@@ -2134,6 +2140,8 @@ def gen_C17(rng, tier):
         L.append("rf %s al:0 cf:1:0 dr:0 live rd:1 wr:1:5 rd:1 dr:1 live" % v)
         L.append("rf %s cl:0 al:1 cf:2:1 dr:0 dr:1 live inc:2 rd:2 dr:2 live" % v)
         L.append("rf %s al:0 cl:0 cf:2:1 live rd:2 dr:0 live" % v)          # clone_from FROM a raw alias: the slot gives its share up
+    for v in ["arw", "amx"]:
+        L.append("rf excl %s" % v)         # the Reference is the Arc's only strong owner: its borrow_mut must still take the lock
     for v in ["arw", "amx", "prw", "pmx"]:
         for n in ([2, 4, 8] if tier == "quick" else [2, 3, 4, 5, 6, 7, 8]):
             L.append("rf thr %s %d %d" % (v, n, n_of(tier, 1000, 100000)))
